@@ -25,9 +25,9 @@ def _models(cx):
     }
 
 
-def h_nonlin(cx, model, xs, ylay, priors=None, correlated=False, method=None, num_grad=False):
+def h_nonlin(cx, model, xs, ylay, priors=None, correlated=False, method=None, num_grad=False, minfail=False):
     import pyerrors as pe
-    rec = fitlib.install(cx, {})
+    rec = fitlib.install(cx, {}, minfail=minfail)
     n_parms, f = _models(cx)[model]
     yobs, Y = fitlib.mk_data(cx, 'y', ylay)
     npts = len(Y)
@@ -62,7 +62,9 @@ def h_nonlin(cx, model, xs, ylay, priors=None, correlated=False, method=None, nu
         kw['method'] = method
     if num_grad:
         kw['num_grad'] = True
-    out = pe.least_squares(xarr, yobs, f, **kw)
+    out = fitlib.guarded_fit(cx, rec, lambda: pe.least_squares(xarr, yobs, f, **kw))
+    if out is None:
+        return
     res = out.fit_parameters
     cx.expect(len(res) == n_parms, 'number of parameters')
 
@@ -133,10 +135,10 @@ def h_nonlin(cx, model, xs, ylay, priors=None, correlated=False, method=None, nu
                 cx.prove(abs(lhs[j] / nrm) <= CONC_TOL, 'implicit-function rule[%d] %s' % (j, lab))
 
 
-def h_tls(cx, model, xlay, ylay, xdim=1):
+def h_tls(cx, model, xlay, ylay, xdim=1, minfail=False):
     """total least squares: ODR contract = stationary point of the documented chi-square incl. the x-residual term"""
     import pyerrors as pe
-    rec = fitlib.install(cx, {})
+    rec = fitlib.install(cx, {}, minfail=minfail)
     n_parms, f = _models(cx)[model]
     xobs, Xs = fitlib.mk_data(cx, 'x', xlay)
     yobs, Ys = fitlib.mk_data(cx, 'y', ylay)
@@ -145,7 +147,9 @@ def h_tls(cx, model, xlay, ylay, xdim=1):
     dX = [o.dvalue for o in xobs]
     dY = [o.dvalue for o in yobs]
     xarg = xobs if xdim == 1 else [xobs[k * npts:(k + 1) * npts] for k in range(xdim)]     # row-major: x.ravel() is the flat list
-    out = pe.total_least_squares(xarg, yobs, f, silent=True)
+    out = fitlib.guarded_fit(cx, rec, lambda: pe.total_least_squares(xarg, yobs, f, silent=True))
+    if out is None:
+        return
     res = out.fit_parameters
     cx.expect(len(res) == n_parms, 'number of parameters')
     cx.expect(out.dof == npts - n_parms, 'dof', str(out.dof))
@@ -273,6 +277,11 @@ def jobs(tier, seed):
     add('nonlin', model='cosh', xs=[0.0, 1.0, 3.0], ylay=[E, E, F_], method='Nelder-Mead')
     add('nonlin', model='exp', xs=[0.5, 1.0, 2.0], ylay=[E, E, F_], num_grad=True)
     add('tls', model='line', xlay=[E, E, E], ylay=[E, E, E])
+    # the minimiser contract including its failure mode: a fit that did not converge must raise, never return a point that is not stationary
+    add('tls', model='exp', xlay=[E, E, E], ylay=[E, F_, E], minfail=True)
+    add('nonlin', model='exp', xs=[0.5, 1.0, 2.0], ylay=[E, E, E], minfail=True)
+    add('nonlin', model='cosh', xs=[0.0, 1.0, 3.0], ylay=[E, E, F_], method='Nelder-Mead', minfail=True)
+    add('nonlin', model='exp', xs=[0.5, 1.0, 2.0], ylay=[E, E, F_], method='migrad', minfail=True)
     add('tls', model='line', xlay=[E, F_, Ei], ylay=[F_, E, CV])
     add('tls', model='exp', xlay=[E, E, E], ylay=[E, F_, E])
     add('tls', model='rational', xlay=[E, F_, E], ylay=[E, E, F_])
